@@ -28,44 +28,7 @@ func runC15(c *Ctx) {
 	c.Floors["S"] = 20
 
 	maxSz := c.P.Const("consensus", "maxMsgSizeBytes")
-	// ---- Decode ---------------------------------------------------------------------------------------
-	if fn := c.Fn("consensus", "WALDecoder", "Decode"); fn != nil {
-		length := `call:\(encoding/binary\.bigEndian\)\.Uint32\(.*\)`
-		isDataMake := func(in ssa.Instruction) bool {
-			m, ok := in.(*ssa.MakeSlice)
-			return ok && !strings.HasPrefix(pathOf(m.Len), "const:")
-		}
-		c.Guarded(fn, "make([]byte, length)", isDataMake, G("length <= maxMsgSizeBytes", Cmp(`^`+length+`$`, "<=", `^const:`+maxSz+`$`)))
-		c.Guarded(fn, "proto.Unmarshal / WALFromProto", Or(CallTo(`^github\.com/gogo/protobuf/proto\.Unmarshal$`, ""), CallTo(`^consensus\.WALFromProto$`, "")),
-			G("crc32.Checksum(data, crc32c) == crc read from the frame", Cmp(`^call:hash/crc32\.Checksum\(.*, global:consensus\.crc32c\)$`, "==", `^`+length+`$`)),
-			G("data read error == nil", IsNil(`^call:iface:\(io\.Reader\)\.Read\(dec\.rd, .*\)#1$`)))
-		c.Guarded(fn, "return a message", func(in ssa.Instruction) bool {
-			r, ok := in.(*ssa.Return)
-			return ok && pathOf(r.Results[0]) != "nil"
-		}, G("proto.Unmarshal == nil", IsNil(`^call:github\.com/gogo/protobuf/proto\.Unmarshal\(`)), G("WALFromProto error == nil", IsNil(`^call:consensus\.WALFromProto\(.*\)#1$`)))
-		// failures: EOF only from the first read; everything else DataCorruptionError
-		nEOF, nCorrupt, nOther := 0, 0, 0
-		for _, in := range findInstrs(fn, AnyReturn()) {
-			r := in.(*ssa.Return)
-			if pathOf(r.Results[0]) != "nil" {
-				continue
-			}
-			e := pathOf(r.Results[1])
-			switch {
-			case strings.Contains(e, "consensus.DataCorruptionError"):
-				nCorrupt++
-			case strings.HasPrefix(e, "call:iface:(io.Reader).Read(dec.rd,"):
-				nEOF++
-			default:
-				nOther++
-			}
-		}
-		c.Check("S", fnName(fn)+"/every failure but the first read's EOF is a DataCorruptionError", nEOF == 1 && nOther == 0 && nCorrupt >= 6, fn.Pos(), nEOF+nCorrupt+nOther, fmt.Sprintf("eof-returns=%d corruption-returns=%d other=%d", nEOF, nCorrupt, nOther))
-		c.Guarded(fn, "return the raw read error (clean end of log)", func(in ssa.Instruction) bool {
-			r, ok := in.(*ssa.Return)
-			return ok && strings.HasPrefix(pathOf(r.Results[1]), "call:iface:(io.Reader).Read(dec.rd,")
-		}, G("errors.Is(err, io.EOF)", True(`^call:errors\.Is\(call:iface:\(io\.Reader\)\.Read\(dec\.rd, .*\)#1, global:io\.EOF\)$`)))
-	}
+	walDecodeRules(c)
 	// ---- Encode / framing agreement ----------------------------------------------------------------------
 	enc := c.Fn("consensus", "WALEncoder", "Encode")
 	dec := c.P.Func("consensus", "WALDecoder", "Decode")
@@ -335,5 +298,49 @@ func replayRules(c *Ctx) {
 			}
 		}
 		c.Check("O", fnName(fn)+"/repair stops at the first decode error", bad == "" && len(rm) > 0, fn.Pos(), len(rm)+1, bad)
+	}
+}
+
+// walDecodeRules: what the frame decoder accepts and how it reports damage. Shared by C15 and C05 (a torn tail must
+// surface as corruption so that start-up repairs the file before anything new is appended).
+func walDecodeRules(c *Ctx) {
+	maxSz := c.P.Const("consensus", "maxMsgSizeBytes")
+	// ---- Decode ---------------------------------------------------------------------------------------
+	if fn := c.Fn("consensus", "WALDecoder", "Decode"); fn != nil {
+		length := `call:\(encoding/binary\.bigEndian\)\.Uint32\(.*\)`
+		isDataMake := func(in ssa.Instruction) bool {
+			m, ok := in.(*ssa.MakeSlice)
+			return ok && !strings.HasPrefix(pathOf(m.Len), "const:")
+		}
+		c.Guarded(fn, "make([]byte, length)", isDataMake, G("length <= maxMsgSizeBytes", Cmp(`^`+length+`$`, "<=", `^const:`+maxSz+`$`)))
+		c.Guarded(fn, "proto.Unmarshal / WALFromProto", Or(CallTo(`^github\.com/gogo/protobuf/proto\.Unmarshal$`, ""), CallTo(`^consensus\.WALFromProto$`, "")),
+			G("crc32.Checksum(data, crc32c) == crc read from the frame", Cmp(`^call:hash/crc32\.Checksum\(.*, global:consensus\.crc32c\)$`, "==", `^`+length+`$`)),
+			G("data read error == nil", IsNil(`^call:iface:\(io\.Reader\)\.Read\(dec\.rd, .*\)#1$`)))
+		c.Guarded(fn, "return a message", func(in ssa.Instruction) bool {
+			r, ok := in.(*ssa.Return)
+			return ok && pathOf(r.Results[0]) != "nil"
+		}, G("proto.Unmarshal == nil", IsNil(`^call:github\.com/gogo/protobuf/proto\.Unmarshal\(`)), G("WALFromProto error == nil", IsNil(`^call:consensus\.WALFromProto\(.*\)#1$`)))
+		// failures: EOF only from the first read; everything else DataCorruptionError
+		nEOF, nCorrupt, nOther := 0, 0, 0
+		for _, in := range findInstrs(fn, AnyReturn()) {
+			r := in.(*ssa.Return)
+			if pathOf(r.Results[0]) != "nil" {
+				continue
+			}
+			e := pathOf(r.Results[1])
+			switch {
+			case strings.Contains(e, "consensus.DataCorruptionError"):
+				nCorrupt++
+			case strings.HasPrefix(e, "call:iface:(io.Reader).Read(dec.rd,"):
+				nEOF++
+			default:
+				nOther++
+			}
+		}
+		c.Check("S", fnName(fn)+"/every failure but the first read's EOF is a DataCorruptionError", nEOF == 1 && nOther == 0 && nCorrupt >= 6, fn.Pos(), nEOF+nCorrupt+nOther, fmt.Sprintf("eof-returns=%d corruption-returns=%d other=%d", nEOF, nCorrupt, nOther))
+		c.Guarded(fn, "return the raw read error (clean end of log)", func(in ssa.Instruction) bool {
+			r, ok := in.(*ssa.Return)
+			return ok && strings.HasPrefix(pathOf(r.Results[1]), "call:iface:(io.Reader).Read(dec.rd,")
+		}, G("errors.Is(err, io.EOF)", True(`^call:errors\.Is\(call:iface:\(io\.Reader\)\.Read\(dec\.rd, .*\)#1, global:io\.EOF\)$`)))
 	}
 }
